@@ -321,5 +321,32 @@ def check_C16(ctx):
                         samples=[dict(cut=data[0]["h"]["cut"], full=data[0]["h"]["full"], index=data[0]["h"]["index"], outcomes=[r["out"] for r in data[0]["res"]][-8:])] if data else [])
 
 
-REGISTRY = {"C16": check_C16, "C14": check_C14, "C07": check_C07, "C06": check_C06, "C10": check_C10, "C15": check_C15, "C01": check_C01, "C02": check_C02, "C04": check_C04, "C05": check_C05,
+def check_C17(ctx):
+    import foreign, collections
+    ctx.trusted += M1_TRUST + ["afero.BasePathFs (prefixing and cleaning of caller spellings below a named root) and archive/tar as the foreign writer are trusted"]
+    coq_props(ctx, "C17", ["C17_root_spellings", "C17_slash_spelling_empty_root", "C17_named_root_identity", "C17_demo"])
+    data = foreign.foreign_stream(ctx)
+    tie = foreign.c17_tie(ctx, data)
+    ctx.oblige("correspondence: the model's rebuild evaluates in Coq on the foreign archives", tie["ok"], tie["log"])
+    ctx.oblige("correspondence: every row (stored names under each root style, positions, attributes) of the index rebuilt from a foreign archive agrees between model and implementation (%d archives)" % tie["cases"],
+               tie["ok"] and not tie["bad"], json.dumps(tie["bad"][:5]))
+    for k in tie["bad"][:3]:
+        ctx.violation("correspondence", "index rebuilt from a foreign archive differs from the model", dict(job=data[k]["job"]), found_input=False)
+    nfail = 0
+    combos = collections.Counter()
+    for d in data:
+        combos[(d["job"]["format"], d["job"]["style"])] += 1
+        for f in foreign.c17_oracle(d):
+            nfail += 1
+            if nfail <= 5:
+                ctx.violation(f["kind"], "%s (%s archive, members named below %r)" % (f["kind"], d["job"]["format"], d["job"]["style"]),
+                              dict(job=d["job"], detail=f["detail"], how="stfsdrv foreign < job.json: writes the archive with archive/tar, opens it through cache.NewCacheFilesystem(stfs, root, none)"))
+    ctx.oblige("oracle: every member is listed under its directory and reads back byte-identical, equivalent spellings resolve, later calls coexist with the original members and survive a rebuild", nfail == 0, "%d failures" % nfail)
+    ctx.coverage.update(evaluations=len(data), distinct_nontrivial=len(set(json.dumps(d["job"], sort_keys=True) for d in data)),
+                        format_style_histogram={"%s %s" % k: v for k, v in combos.items()},
+                        rule="directory trees (depth <= 4, names incl. spaces, dots, non-ASCII, 60- and 120-byte components, contents 0..3000 bytes) written by archive/tar as ustar/PAX/GNU with the top entry ./, /, top/, 'a b/' or T/, record sizes 1/3/20; every format x style at least once",
+                        samples=[dict(format=data[0]["job"]["format"], style=data[0]["job"]["style"], entries=[e["path"] for e in data[0]["job"]["entries"]][:8])] if data else [])
+
+
+REGISTRY = {"C17": check_C17, "C16": check_C16, "C14": check_C14, "C07": check_C07, "C06": check_C06, "C10": check_C10, "C15": check_C15, "C01": check_C01, "C02": check_C02, "C04": check_C04, "C05": check_C05,
             "C12": check_C12, "C13": check_C13}
